@@ -13,7 +13,7 @@ class C05(OutstationProp):
             "confirm wait; small transmit buffers force series; non-trivial = a fragment was transmitted")
 
     def cases(self, rng, tier):
-        n = 300 if tier == "quick" else 5000
+        n = 600 if tier == "quick" else 5000
         out = self.cases_session(rng, n // 2, focus=None)
         out += self.cases_series(rng, n // 4)
         out += self.cases_unsol_wait(rng, n // 4)
@@ -97,7 +97,10 @@ class C05(OutstationProp):
             if op[0] == "rx":
                 frm, bc = int(op[1]), op[2]
                 b = bytes.fromhex(op[3]) if op[3] != "-" else b""
-                accepted = bc == "none" and (any_master or frm == MASTER) and len(b) >= 2
+                dig = [l for l in lines if " > digest " in l]
+                wellformed = bool(dig) and all(x in dig[0].split() for x in ("hp=ok", "rv=ok", "obj=ok"))
+                # only a request that passed header validation and object parsing is "processed" and remembered
+                accepted = bc == "none" and (any_master or frm == MASTER) and len(b) >= 2 and wellformed
                 is_confirm = len(b) >= 2 and b[1] == 0
                 if accepted and not is_confirm:
                     if prev is not None and prev[0] == b and prev[1] == frm:
